@@ -118,13 +118,45 @@ type gbFacts struct {
 	countable bool
 }
 
+var quotedQualRe = regexp.MustCompile(`^\s*/[A-Za-z0-9_]+="(.*)$`)
+
+// closesQuote reports whether s (text after an opening quote) contains the closing quote: a double quote
+// that is not doubled.
+func closesQuote(s string) bool {
+	for i := 0; i < len(s); i++ {
+		if s[i] == '"' {
+			if i+1 < len(s) && s[i+1] == '"' {
+				i++
+				continue
+			}
+			return true
+		}
+	}
+	return false
+}
+
 func gbRecordFacts(text string) []gbFacts {
 	var out []gbFacts
 	var cur *gbFacts
 	inOrigin := false
-	inTable, quotes := false, 0
+	inTable, inQuote := false, false
 	lines := strings.Split(strings.ReplaceAll(text, "\r\n", "\n"), "\n")
 	for _, ln := range lines {
+		// a quoted qualifier value runs until its closing quote, whatever the lines in between look like: a field
+		// name inside it is grammatically not a field, and the harness then makes no claim about the record
+		if inTable && inQuote {
+			if strings.HasPrefix(ln, "LOCUS") || strings.HasPrefix(ln, "ORIGIN") || strings.HasPrefix(ln, "CONTIG") || strings.HasPrefix(ln, "//") {
+				if cur != nil {
+					cur.countable = false
+				}
+			}
+			if closesQuote(ln) {
+				inQuote = false
+			}
+			if !strings.HasPrefix(ln, "//") {
+				continue
+			}
+		}
 		if m := locusRe.FindStringSubmatch(ln); m != nil && !inOrigin {
 			if cur != nil {
 				cur.countable = false // a second LOCUS line inside a record: which one declares the length is unclear
@@ -140,25 +172,25 @@ func gbRecordFacts(text string) []gbFacts {
 			continue
 		}
 		if strings.HasPrefix(ln, "//") {
-			inOrigin, inTable = false, false
+			inOrigin, inTable, inQuote = false, false, false
 			cur = nil
 			continue
 		}
 		if strings.HasPrefix(ln, "FEATURES") {
-			inTable, quotes = true, 0
+			inTable = true
 			continue
 		}
 		if strings.HasPrefix(ln, "ORIGIN") {
-			if inTable && quotes%2 == 1 {
-				cur.countable = false // the line lies inside an unterminated quoted qualifier value: grammatically not an ORIGIN field
-			}
 			inTable = false
 			inOrigin = true
 			cur.hasOrigin = true
 			continue
 		}
 		if inTable {
-			quotes += strings.Count(ln, "\"")
+			if m := quotedQualRe.FindStringSubmatch(ln); m != nil && !closesQuote(m[1]) {
+				inQuote = true
+			}
+			continue
 		}
 		if inOrigin {
 			if !originLineRe.MatchString(ln) {
